@@ -30,7 +30,8 @@ CHAIN = {"quick": 0, "thorough": 0}     # every invocation form already runs in 
 TIMEOUT = {"quick": 900, "thorough": 3600}
 
 RECIPE = scenarios.RECIPE
-STYLES = ["abs", "abs_slash", "rel_parent", "rel_dot", "rel_slash", "rel_else", "rel_else_slash"]
+STYLES = ["abs", "abs_slash", "rel_parent", "rel_dot", "rel_slash", "rel_else", "rel_else_slash", "dot", "symlink",
+          "symlink_blank"]
 WRITERS = ["colander", "combine", "chef", "mandoline_array", "mandoline_plotfile", "mandoline_image",
            "whip", "chk2plt", "marinate"]
 READERS = ["taste", "menu", "minuterie", "pestle"]
@@ -42,7 +43,7 @@ def cases(tier, seed):
     for tool in WRITERS + READERS:
         for form in ("api", "cli"):
             for output in (("explicit", "default") if tool in WRITERS else ("none",)):
-                styles = STYLES if tier == "thorough" else (STYLES if output == "default" else ["abs", "rel_slash", "rel_else"])
+                styles = STYLES if tier == "thorough" else (STYLES if output == "default" else ["abs", "rel_slash", "rel_else", "dot", "symlink_blank"])
                 cs.append({"kind": "forms", "tool": tool, "form": form, "output": output, "styles": styles,
                            "seed": seed * 100 + 3 + (k % 3)})
                 k += 1
@@ -116,6 +117,11 @@ class Sandbox:
         with open(self.recipe, "w") as f:
             f.write(RECIPE)
         self.inputs = [self.plt, self.plt2, self.plt3, self.plt4, self.chk]
+        # symbolic links to the inputs, kept elsewhere (made here, before any audit starts)
+        for d in ("links", "dir with blank"):
+            os.makedirs(os.path.join(self.root, d))
+            for path in self.inputs:
+                os.symlink(path, os.path.join(self.root, d, os.path.basename(path)))
 
     def styled(self, path, style):
         """(argument string, cwd) for an input path in the given style"""
@@ -134,6 +140,13 @@ class Sandbox:
             return "../in/" + name, self.cwd
         if style == "rel_else_slash":
             return "../in/" + name + "/", self.cwd
+        if style == "dot":
+            # the tool is started from inside the input, which is named '.'
+            return ".", path
+        if style in ("symlink", "symlink_blank"):
+            # the input is reached through a symbolic link kept elsewhere (a directory whose name holds a blank)
+            link = os.path.join(self.root, "links" if style == "symlink" else "dir with blank", name)
+            return (link, self.cwd) if style == "symlink" else (os.path.join("..", "dir with blank", name), self.cwd)
         raise ValueError(style)
 
 
@@ -170,7 +183,7 @@ def invoke(tool, form, sb, style, outarg, unknown=False):
             combine(PlotfileCooker(a3), PlotfileCooker(a4), pltout=outarg, vars1="f0 f2", vars2="g1")
         elif tool == "combine":
             # the second path without the trailing slash: the two defaults then compose differently
-            arg2, _ = sb.styled(sb.plt2, style.replace("_slash", "") if style != "rel_slash" else "rel_parent")
+            arg2, _ = sb.styled(sb.plt2, "abs" if style == "dot" else style.replace("_slash", "") if style != "rel_slash" else "rel_parent")
             if form == "api":
                 from amr_kitchen import PlotfileCooker
                 from amr_kitchen.combine.combine import combine
@@ -260,8 +273,14 @@ def allowed_roots(tool, sb, out_abs):
     return None
 
 
-def default_prefixes(tool, sb, cwd):
-    """path prefixes of the documented default outputs (beside the input / in the cwd)"""
+def default_prefixes(tool, sb, cwd, style=None):
+    """path prefixes of the documented default outputs (beside the input / in the cwd); for an input reached
+    through a symbolic link: beside the link or beside what it points to"""
+    if style in ("symlink", "symlink_blank"):
+        d = os.path.join(sb.root, "links" if style == "symlink" else "dir with blank")
+        alt = Sandbox.__new__(Sandbox)
+        alt.plt, alt.plt2, alt.chk = (os.path.join(d, os.path.basename(x)) for x in (sb.plt, sb.plt2, sb.chk))
+        return default_prefixes(tool, sb, cwd) + default_prefixes(tool, alt, cwd)
     plt, chk = sb.plt, sb.chk
     if tool == "chef":
         return [plt + "_ck"]
@@ -362,6 +381,8 @@ def run_forms(case, work, rec):
                 outarg, out_abs = explicit_out(tool, sb, cwd if outstyle == "rel" else None)
             if tool == "colander" and outarg is None:
                 continue   # colander requires an output
+            if style == "dot" and output == "default" and tool in ("combine", "whip"):
+                continue   # their documented default is the current directory - here the input itself, by request
             key = (tool, form, output, style, outstyle)
             descr = f"{tool} via {form}, input path style {style}, output {outstyle}"
             pools.CTL.reset(mode="inproc", seed=case["seed"])
@@ -370,10 +391,12 @@ def run_forms(case, work, rec):
                 rec.count("default_output_forms")
             if "slash" in style:
                 rec.count("trailing_slash_forms")
+            if style in ("dot", "symlink", "symlink_blank"):
+                rec.count("forms:" + style)
             exc, new = audit_invocation(rec, sb, work, descr, key,
                                         lambda: invoke(tool, form, sb, style, outarg), out_abs, reader,
                                         output == "default" or "slash" in style,
-                                        defaults=default_prefixes(tool, sb, cwd) if output == "default" else None)
+                                        defaults=default_prefixes(tool, sb, cwd, style) if output == "default" else None)
             if exc is not None:
                 rec.count("raised:" + type(exc).__name__)
                 rec.seen("raised_forms", f"{tool}/{form}/{output}/{style}: {type(exc).__name__}")
